@@ -42,7 +42,13 @@ Init == /\ l = 1 /\ t = [ln |-> 0] /\ exp = <<>> /\ nonce = <<>> /\ lde = 0 /\ r
 \* the statement as instantiated by the harness (Stark.tla, Effective)
 Begin == /\ E.ev = "begin"
          /\ t' = Effective(E.t) /\ exp' = E.expected /\ nonce' = E.nonce /\ lde' = E.lde
-         /\ E.expected[1] = SeedCtx(E.t, E.meta) \o E.pub              \* the seed: the context in its documented layout, then the public inputs
+         \* the seed binds the context: changing any one parameter of the context (trace length, widths, auxiliary random
+         \* elements, metadata, field modulus, each option) changes the elements the coin is seeded with (measured on the code)
+         /\ \A b \in DOMAIN E.binding : E.binding[b].differs
+         \* the documented layout of the seed (Context::to_elements, then the public inputs) is the model's reading of the
+         \* code, not part of the property: a difference is reported as a note
+         /\ IF E.expected[1] = SeedCtx(E.t, E.meta) \o E.pub THEN TRUE
+                                                            ELSE PrintT(<<"SPEC-DRIFT seed layout differs from Stark.tla SeedCtx, statement", E.id>>)
          /\ Len(E.expected) = NumMsgs(E.t)                       \* layer count of the model = commitments in the proof
          /\ E.lde = Lde(E.t)
          /\ E.unique >= 1 /\ E.unique <= E.t.q
